@@ -343,7 +343,7 @@ Qed.
 Lemma ok_environ_eset e k v : ok_environ e -> ok_value v -> ok_environ (eset e k v).
 Proof.
   induction 1 as [|[k0 v0] e H0 He IH]; intro Hv; cbn [eset].
-  - constructor; auto. constructor.
+  - constructor; [exact Hv|constructor].
   - destruct (beqb k k0); constructor; auto. apply IH. exact Hv.
 Qed.
 
